@@ -47,6 +47,9 @@ type SymReq struct {
 	Form     []KV   `json:"form,omitempty"`
 	BadBody  bool   `json:"badbody,omitempty"`
 	RawQuery string `json:"rawquery,omitempty"` // literal raw query (its parsed form must be given in Query)
+	// request headers the library has no business reading (it reads Content-Type only): method overrides,
+	// forwarding and identity headers.  Sent to the implementation, invisible to the model.
+	Hdr [][2]string `json:"hdr,omitempty"`
 }
 
 type SeedSpec struct {
@@ -503,7 +506,7 @@ func (r *Run) exec(s SymStep) StepRec {
 	switch s.Kind {
 	case "req":
 		q := Req{Browser: s.Req.Browser, Method: s.Req.Method, Route: s.Req.Route, Arg: s.Req.Arg, Path: s.Req.Path,
-			Query: r.resolveKVs(s.Req.Query), Form: r.resolveKVs(s.Req.Form), BadBody: s.Req.BadBody, RawOverride: s.Req.RawQuery}
+			Query: r.resolveKVs(s.Req.Query), Form: r.resolveKVs(s.Req.Form), BadBody: s.Req.BadBody, RawOverride: s.Req.RawQuery, Hdr: s.Req.Hdr}
 		q.fill()
 		browser = q.Browser
 		code := ""
